@@ -800,6 +800,9 @@ class ExprMixin(ExecBase):
                 res.append((s, V(PYOBJ, PyThing("pytuple", items=vs))))
                 continue
             ety = vs[0].ty
+            for v in vs[1:]:
+                if T.coerce(v, ety) is None and isinstance(v.ty, Opt) and v.ty.inner == ety:
+                    ety = v.ty                      # [x, maybe_x]: the element type is the optional one
             lty = List(ety)
             arr = z3.K(INT.sort(), self.zero_of(ety))
             for i, v in enumerate(vs):
